@@ -206,6 +206,51 @@ fn main() {
           let _ = tokio::time::timeout(Duration::from_secs(5), ctx.term()).await;
           true
         }
+        "NB" => {
+          // burst of small messages over an encrypted link (session batches them into one record?)
+          let mech = if it % 2 == 0 { "noise" } else { "curve" };
+          let mut k1 = [7u8; 32];
+          k1[0] = it as u8;
+          let mut k2 = [9u8; 32];
+          k2[1] = it as u8;
+          let pull = ctx.socket(SocketType::Pull).unwrap();
+          let push = ctx.socket(SocketType::Push).unwrap();
+          if mech == "noise" {
+            let srv = rzmq::verif::noise_keypair_from(k1);
+            let cli = rzmq::verif::noise_keypair_from(k2);
+            pull.set_option(opt::NOISE_XX_ENABLED, true).await.unwrap();
+            pull.set_option_raw(opt::NOISE_XX_STATIC_SECRET_KEY, &srv.0).await.unwrap();
+            push.set_option(opt::NOISE_XX_ENABLED, true).await.unwrap();
+            push.set_option_raw(opt::NOISE_XX_STATIC_SECRET_KEY, &cli.0).await.unwrap();
+            push.set_option_raw(opt::NOISE_XX_REMOTE_STATIC_PUBLIC_KEY, &srv.1).await.unwrap();
+          } else {
+            let srv = rzmq::verif::curve_keypair_from(k1);
+            let cli = rzmq::verif::curve_keypair_from(k2);
+            pull.set_option(opt::CURVE_SERVER, true).await.unwrap();
+            pull.set_option_raw(opt::CURVE_SECRET_KEY, &srv.0).await.unwrap();
+            push.set_option_raw(opt::CURVE_SECRET_KEY, &cli.0).await.unwrap();
+            push.set_option_raw(opt::CURVE_SERVER_KEY, &srv.1).await.unwrap();
+          }
+          util::set_i32(&pull, opt::RCVTIMEO, 1500).await;
+          let ep = util::bind_fresh(&pull, util::Transport::Tcp).await.unwrap();
+          let _ = push.connect(&ep).await;
+          tokio::time::sleep(Duration::from_millis(400)).await;
+          let mut acc = 0;
+          for k in 0..300u32 {
+            let mut b = k.to_be_bytes().to_vec();
+            b.resize(1024, 0x55);
+            if push.send(util::msg(b, false)).await.is_ok() {
+              acc += 1;
+            }
+          }
+          let mut got = 0;
+          while pull.recv().await.is_ok() {
+            got += 1;
+          }
+          println!("{}: accepted {} received {}", mech, acc, got);
+          let _ = tokio::time::timeout(Duration::from_secs(5), ctx.term()).await;
+          got == acc
+        }
         "Q" => {
           // does ReadyPipeQueue::close() release a blocked pop() while a sender clone is still alive?
           let q = std::sync::Arc::new(rzmq::verif::Rpq::<u32>::new(4));
